@@ -58,6 +58,7 @@ type Case struct {
 	Inspect  string `json:"inspect,omitempty"`
 	Keep     string `json:"keep,omitempty"`
 	MaxChain int    `json:"maxchain,omitempty"` // types.MaxChainLength for this case (0: default 1024)
+	From     string `json:"from,omitempty"`     // run the history on a copy of this directory instead of an empty one
 }
 
 type DiskObs struct {
@@ -331,7 +332,13 @@ func runCase(c Case, work string) Out {
 	}
 	dir := filepath.Join(work, fmt.Sprintf("meta-%d-%d", os.Getpid(), c.ID))
 	os.RemoveAll(dir)
-	if err := os.MkdirAll(dir, 0700); err != nil {
+	if c.From != "" {
+		// (the directory a killed victim left: what does a restarted process do with it next?)
+		if err := copyDir(c.From, dir); err != nil {
+			out.Err = "from: " + err.Error()
+			return out
+		}
+	} else if err := os.MkdirAll(dir, 0700); err != nil {
 		out.Err = err.Error()
 		return out
 	}
